@@ -135,10 +135,12 @@ pub fn check(thorough: bool, _seed: u64) -> Check {
         controls: vec![(
             "reference with >= instead of > must disagree with the subject on a breakpoint",
             Box::new(|| {
+                // oracle only (never the subject): the reference index puts a breakpoint into the piece on its right,
+                // and two different pieces of a probe function give different bits at the same argument
                 let ends = [1.0, 2.0];
                 let pw = probe_pw(&ends);
                 let wrong = ends.iter().position(|&e| e >= 1.0).unwrap();
-                if bits_eq(pw.evaluate(1.0), pw.segments[wrong].evaluate(1.0)) {
+                if ref_index(&ends, 1.0) != 1 || wrong != 0 || bits_eq(pw.segments[1].evaluate(1.0), pw.segments[wrong].evaluate(1.0)) {
                     Err("comparison is not live".into())
                 } else {
                     Ok(())
